@@ -97,7 +97,7 @@ def forms():
     F.append(("HSET", ["x", "y"], [(), ("c",)], [{}]))
     F.append(("HRESET", ["x", "y"], [()], [{}]))
     F.append(("HPAINT", ["x", "y"], [(), ("c",), ("c", "b")], [{}]))
-    F.append(("HPRINT", ["x", "y", "t"], [()], [{"tkind": "str"}, {"tkind": "num"}, {"tkind": "long"}]))
+    F.append(("HPRINT", ["x", "y", "t"], [()], [{"tkind": "str"}, {"tkind": "num"}, {"tkind": "long"}, {"tkind": "odd"}]))
     F.append(("HDRAW", ["s"], [()], [{}]))
     F.append(("PLAY", ["s"], [()], [{}]))
     F.append(("HBUFF", ["b", "s"], [()], [{}]))
@@ -141,6 +141,10 @@ def build_stmt(kind_name, req, present, extra, kinds):
                 # program's string size is)
                 long_t = "Press any key to START the game - Enjoy!"
                 o[nm] = ("str", long_t) if okind not in ("expr", "tmp") else ("bin", "+", ("str", long_t[:24]), ("str", long_t[24:]))
+            elif nm == "t" and extra.get("tkind") == "odd":
+                # characters a line-splitting routine of the host language takes for line ends (not the tool's grammar)
+                odd_t = "PAGE" + "\x0b\x0c\x1c\x1d\x1e\x85\u2028\u2029"[(k + len(kinds)) % 8] + "TWO"
+                o[nm] = ("str", odd_t) if okind not in ("expr", "tmp") else ("bin", "+", ("str", odd_t[:5]), ("str", odd_t[5:]))
             elif nm in ("s", "t") and kind_name in ("HDRAW", "PLAY") or (nm == "t" and extra.get("tkind") == "str"):
                 o[nm] = str_operand(okind, k)
             elif okind == "big" and (kind_name, nm) in LEGAL_MAX:
@@ -278,10 +282,22 @@ def run_case(case):
         grab(stmts)
         prog.append((30, [("data", [("n", v[1], list(v[2])) for v in lits[:4]] + [("u", ""), ("n", 7.0, ["7"])])]))
     text = render(prog)
-    obs["key"] = "%s|%s|%s|%s|%s" % (kind_name, present, sorted((k, str(v)) for k, v in extra.items()), kinds, str(case.get("in_if")) + ("+late" if case.get("late") else "") + ("+data" if case.get("data") else "") + ("+open" if case.get("openline") else ""))
+    obs["key"] = "%s|%s|%s|%s|%s" % (kind_name, present, sorted((k, str(v)) for k, v in extra.items()), kinds, str(case.get("in_if")) + ("+late" if case.get("late") else "") + ("+data" if case.get("data") else "") + ("+open" if case.get("openline") else "") + ("+bundle" if case.get("bundle") else ""))
     obs["sets"]["forms"] = ["%s%s" % (kind_name, list(present))]
     cb = harness.run_cb(prog)
-    conv = harness.convert(text, initialize_vars=case.get("init", False))
+    bundle_procs = None
+    if case.get("bundle"):
+        # the program behind its runtime procedures (the command line's default): its last procedure is the same program
+        conv = harness.convert(text, initialize_vars=case.get("init", False), output_dependencies=True, procname="prog")
+        if conv["ok"]:
+            allp, perr = harness.parse_b09(conv["out"])
+            if allp is None:
+                obs["viols"].append({"sig": "C04/%s/bundle-unparseable" % kind_name, "detail": {"source": text[-300:], "error": perr}})
+                return obs
+            bundle_procs = [allp[-1]]
+            conv["out"] = conv["out"][conv["out"].lower().rfind("procedure prog"):]
+    else:
+        conv = harness.convert(text, initialize_vars=case.get("init", False))
     if cb["status"] != "ok" or not conv["ok"]:
         obs["nontrivial"] = False
         obs["counters"]["dropped_source_%s" % cb["status"] if cb["status"] != "ok" else "not_converted"] = 1
@@ -293,7 +309,7 @@ def run_case(case):
             obs["viols"].append({"sig": "C04/%s/valid-statement-%s" % (kind_name, "refused" if conv["documented"] else "internal-error"),
                                  "detail": {"source": text[-300:], "exception": conv.get("exc"), "message": conv.get("msg")}})
         return obs
-    b = harness.run_b09(conv["out"])
+    b = harness.run_b09(conv["out"], procs=bundle_procs)
     detail = {"source": text.split("\n")[1][:300], "emitted": [ln for ln in conv["out"].split("\n") if ln.startswith("20 ") or ln.startswith("  ")][:6]}
     numeric_hprint = kind_name == "HPRINT" and extra.get("tkind") == "num"
     if b["status"] != "ok":
@@ -410,4 +426,4 @@ def cases(tier, seed):
                     n += 1
                     yield {"form": key, "pat": p, "extra": x, "kinds": ks, "init": n % 2 == 0, "in_if": n % 5 == 0,
                            "second": n % 7 == 0, "sample": n % 200 == 0, "late": n % 3 == 0,
-                           "data": n % 4 == 1, "openline": n % 5 == 2}
+                           "data": n % 4 == 1, "openline": n % 5 == 2, "bundle": n % 6 == 4}
